@@ -180,6 +180,11 @@ fn group_a(cat: &mut Catalogue, tier: Tier) {
             (Knob::Optional(1), Knob::Map(1)),
             (Knob::Optional(0), Knob::MissingFn(0)),
             (Knob::Skip(1), Knob::DefaultExpr(1)),
+            // the custom function must get the key *after* rename_all
+            (Knob::MissingFn(0), Knob::RenameAll(RenameAll::Camel)),
+            (Knob::MissingFn(1), Knob::RenameAll(RenameAll::Lower)),
+            (Knob::MissingFn(1), Knob::Rename(1)),
+            (Knob::Deny(Deny::Custom), Knob::RenameAll(RenameAll::Camel)),
         ];
         for &(k1, k2) in pairs {
             let s = apply(apply(base.clone(), k1).unwrap(), k2).unwrap();
@@ -235,7 +240,7 @@ fn group_b(cat: &mut Catalogue, tier: Tier) {
         }
     }
     // B3: identifier shapes × rename_all
-    for shape in ["a", "my_field", "my__field", "_lead", "trail_", "myField", "MyField"] {
+    for shape in ["a", "my_field", "my__field", "_lead", "trail_", "myField", "MyField", "Éclair"] {
         for ra in [None, Some(RenameAll::Camel), Some(RenameAll::Lower)] {
             let mut s = st(vec![FieldSpec::plain(shape, pu8()), FieldSpec::plain("zz_other", pu8())]);
             s.rename_all = ra;
@@ -413,6 +418,32 @@ fn group_c(cat: &mut Catalogue, tier: Tier) {
         e.deny = Deny::Default;
         let i = cat.add(Item::Enum(e));
         cat.root(p(Ty::Item(i)), "C2", "tagged variant with defaulted Vec");
+    }
+    // the tag key is written verbatim: rename_all must not touch it
+    for tag in ["kind_of", "kindOf", "Kind"] {
+        for ra in [None, Some(RenameAll::Camel), Some(RenameAll::Lower)] {
+            if tier == Tier::Quick && ra.is_none() && tag != "kind_of" {
+                continue;
+            }
+            let mut e = tagged_enum(tag);
+            e.rename_all = ra;
+            let i = cat.add(Item::Enum(e));
+            cat.root(p(Ty::Item(i)), "C2", format!("tag key {tag} under {ra:?}"));
+        }
+    }
+    // a struct-like variant without any field, and one with only a skipped field
+    for deny in [Deny::No, Deny::Default, Deny::Custom] {
+        let mut e = tagged_enum("kind");
+        e.deny = deny;
+        e.variants.push(VariantSpec { ident: "EmptyV".into(), rename: None, rename_all: None, fields: Some(vec![]) });
+        e.variants.push(VariantSpec {
+            ident: "SkipOnlyV".into(),
+            rename: None,
+            rename_all: None,
+            fields: Some(vec![FieldSpec { skip: true, ..FieldSpec::plain("fs", pu8()) }]),
+        });
+        let i = cat.add(Item::Enum(e));
+        cat.root(p(Ty::Item(i)), "C2", format!("tagged with field-less struct-like variants {deny:?}"));
     }
     // single-variant tagged enums
     {
